@@ -120,3 +120,90 @@ def gen_base(rng):
         workers.append(calls)
     return {'kind': 'threads', 'main': rng.choice(['return', 'discard', 'join', 'discard-join', 'return', 'discard']),
             'workers': workers, 'copy': rng.random() < 0.5}
+
+
+# ------------------------------------------------------------------------------------------------------------------
+# C01, threads: record an operation whose worker threads call inputs (any aliases) and outputs (thread-disjoint aliases),
+# then replay it with worker threads again, both under scheduler-chosen interleavings.
+# ------------------------------------------------------------------------------------------------------------------
+def run_record_replay_threads(case):
+    from playback.tape_recorder import TapeRecorder
+    from playback.tape_cassettes.in_memory.in_memory_tape_cassette import InMemoryTapeCassette
+    import playback.tape_recorder as trm
+    cassette = InMemoryTapeCassette()
+    tr = TapeRecorder(cassette)
+    tr.enable_recording()
+    state = {'sch': None, 'results': None}
+
+    def make_op():
+        ns = {}
+
+        def read(self, arg):
+            return ('value', arg, arg * 7)
+        ns['read'] = tr.intercept_input('in')(read)
+        for wi in range(len(case['workers'])):
+            def send(self, arg, wi=wi):
+                return ('ack', wi, arg)
+            ns['send%d' % wi] = tr.intercept_output('out%d' % wi)(send)
+
+        def work(self, wi, calls):
+            for c in calls:
+                try:
+                    v = self.read(c['arg']) if c['site'] == 'in' else getattr(self, 'send%d' % wi)(c['arg'])
+                    state['results'][wi].append(['ret', list(v)])
+                except S.SchedAbort:
+                    raise
+                except BaseException as ex:
+                    state['results'][wi].append(['exc', type(ex).__name__])
+        ns['work'] = work
+
+        def execute(self):
+            sch = state['sch']
+            ws = [S.CoopThread(sch, 'w%d' % wi, (lambda wi=wi, calls=calls: self.work(wi, calls)))
+                  for wi, calls in enumerate(case['workers'])]
+            for w in ws:
+                w.start()
+            for w in ws:
+                w.join()
+            return 'done'
+        ns['execute'] = tr.operation()(execute)
+        from harness import dyn
+        return dyn.register(type('ThreadedOp', (object,), ns))
+    Op = make_op()
+
+    def one_run(seed, fn):
+        sch = S.Scheduler([trm.__file__.replace('.pyc', '.py')], chooser=S.RandomChooser(random.Random(seed)),
+                          max_steps=100000, watchdog_s=30.0)
+        state['sch'] = sch
+        state['results'] = [[] for _ in case['workers']]
+        box = []
+
+        def main():
+            try:
+                box.append(['ret', fn()])
+            except S.SchedAbort:
+                raise
+            except BaseException as ex:
+                box.append(['exc', type(ex).__name__])
+        sch.spawn('main', main)
+        outcome = sch.run()
+        return outcome, box, state['results'], list(sch.choices)
+    out1, box1, res1, ch1 = one_run(case['rand'], lambda: Op().execute())
+    rid = cassette.get_last_recording_id()
+    pb = {}
+
+    def replay():
+        p = tr.play(rid, lambda recording: Op().execute())
+        pb['playback'] = sorted([o.key, repr(o.value)] for o in p.playback_outputs)
+        pb['recorded'] = sorted([o.key, repr(o.value)] for o in p.recorded_outputs)
+        return 'played'
+    out2, box2, res2, ch2 = one_run(case['rand'] + 1, replay)
+    return {'record': {'outcome': out1, 'main': box1, 'results': res1}, 'replay': {'outcome': out2, 'main': box2, 'results': res2},
+            'outputs': pb, '_choices': [ch1, ch2]}
+
+
+def gen_record_replay(rng):
+    workers = []
+    for _ in range(rng.choice([1, 2, 2, 3])):
+        workers.append([{'site': rng.choice(['in', 'in', 'out']), 'arg': rng.randint(0, 4)} for _ in range(rng.randint(1, 3))])
+    return {'kind': 'threads', 'model': False, 'workers': workers, 'rand': rng.randrange(10 ** 9)}
